@@ -168,6 +168,174 @@ def lib_save(keys, arrays, common, path=None):
         return f.read()
 
 
+# ---------------------------------------------------------------- the write path under a crash model
+# IndxIO.save is run on an UNBUFFERED real file (numpy's tofile needs a descriptor) whose content is snapshotted at every
+# observable step: every method call on the file object and every source line executed inside catii/indxio.py.  Between two
+# snapshots the changed byte regions are assumed to reach the file in ascending byte order within a region (regions in every
+# order when there are several): every intermediate content is a crash state.
+
+import io
+import sys
+
+
+class _LogFile(io.FileIO):
+    def __init__(self, path, log):
+        super().__init__(path, "w")
+        self._vf_log = log
+        self._vf_rfd = os.open(path, os.O_RDONLY)
+
+    def vf_snap(self):
+        if self._vf_rfd is None:
+            return
+        n = os.fstat(self._vf_rfd).st_size
+        b = os.pread(self._vf_rfd, n, 0) if n else b""
+        if not self._vf_log or self._vf_log[-1] != b:
+            self._vf_log.append(b)
+
+    def write(self, b):
+        self.vf_snap()
+        r = super().write(b)
+        self.vf_snap()
+        return r
+
+    def seek(self, *a):
+        self.vf_snap()
+        return super().seek(*a)
+
+    def truncate(self, *a):
+        self.vf_snap()
+        r = super().truncate(*a)
+        self.vf_snap()
+        return r
+
+    def flush(self):
+        self.vf_snap()
+        return super().flush()
+
+    def tell(self):
+        self.vf_snap()
+        return super().tell()
+
+    def fileno(self):
+        self.vf_snap()
+        return super().fileno()
+
+    def close(self):
+        if not self.closed:
+            self.vf_snap()
+            os.close(self._vf_rfd)
+            self._vf_rfd = None
+        return super().close()
+
+
+_MON_TOOL = 4
+
+
+def lib_save_logged(keys, arrays, common, path=None):
+    """Run the real IndxIO.save under the crash model; return (final bytes, list of snapshots in order)."""
+    import catii.indxio as mod
+    from catii.indxio import IndxIO
+
+    path = path or _p("w")
+    entries = {}
+    for k, a in zip(keys, arrays):
+        entries[tuple(k)] = numpy.array(a, dtype=numpy.uint32)
+    log = [b""]
+    f = _LogFile(path, log)
+    mon = sys.monitoring
+    fname = mod.__file__
+    try:
+        mon.use_tool_id(_MON_TOOL, "vf-indx")
+        own = True
+    except ValueError:
+        own = False
+
+    def on_line(code, line):
+        if code.co_filename != fname:
+            return mon.DISABLE
+        if not f.closed:
+            f.vf_snap()
+
+    if own:
+        mon.register_callback(_MON_TOOL, mon.events.LINE, on_line)
+        mon.set_events(_MON_TOOL, mon.events.LINE)
+    try:
+        IndxIO.save(f, entries, common, numpy.dtype(numpy.uint32))
+    finally:
+        if own:
+            mon.set_events(_MON_TOOL, 0)
+            mon.register_callback(_MON_TOOL, mon.events.LINE, None)
+            mon.free_tool_id(_MON_TOOL)
+            mon.restart_events()
+        f.close()
+    with open(path, "rb") as g:
+        final = g.read()
+    if log[-1] != final:
+        log.append(final)
+    return final, log
+
+
+def _regions(a, b):
+    """Maximal runs of byte positions where content b differs from content a (positions beyond len(a) count as differing)."""
+    n = len(b)
+    out = []
+    i = 0
+    la = len(a)
+    while i < n:
+        if i >= la or a[i] != b[i]:
+            j = i
+            while j < n and (j >= la or a[j] != b[j]):
+                j += 1
+            out.append((i, j))
+            i = j
+        else:
+            i += 1
+    return out
+
+
+def crash_states(log, final):
+    """Every file content a crash can leave, except the complete final file; prefixes of the final file are returned as a set of lengths,
+    everything else as explicit contents."""
+    prefix_lengths = set()
+    others = {}
+
+    def add(state, step):
+        if state == final:
+            return
+        if final.startswith(state):
+            prefix_lengths.add(len(state))
+        elif state not in others:
+            others[state] = step
+
+    for step in range(len(log) - 1):
+        a, b = log[step], log[step + 1]
+        add(a, step)
+        if len(b) < len(a):
+            add(b, step)      # a truncation: no intermediate content
+            continue
+        regs = _regions(a, b)
+        orders = list(itertools.permutations(regs)) if len(regs) <= 3 else [tuple(regs), tuple(reversed(regs))]
+        for order in orders:
+            cur = bytearray(a)
+            for (i, j) in order:
+                if i == len(cur) and len(order) == 1:
+                    # a pure append: the intermediate contents are prefixes of b
+                    for k in range(i, j):
+                        add(bytes(b[:k]), step)
+                    cur = bytearray(b[:j])
+                    continue
+                for k in range(i, j):
+                    if k >= len(cur):
+                        cur.extend(b"\0" * (k + 1 - len(cur)))
+                    add(bytes(cur), step)
+                    cur[k] = b[k]
+                if j > len(cur):
+                    cur.extend(b"\0" * (j - len(cur)))
+            # (the fully applied step is log[step + 1], added by the next iteration or equal to final)
+    add(log[-1], len(log) - 1)
+    return prefix_lengths, others
+
+
 def lib_load_bytes(blob, path=None):
     from catii.indxio import IndxIO
 
